@@ -212,7 +212,8 @@ func blameNormalForm(lang languages.Language, schemas ast.Schemas, final []nfVio
 			case lastOK >= 0 && lastOK+1 < len(snaps):
 				// with what the pass turned the type at that position from and into:
 				// one pass can break a predicate in several unrelated ways
-				cause = "broken-by:" + snaps[lastOK+1].name + "[" + kindAt(snaps[lastOK], v.Where) + ">" + kindAt(snaps[lastOK+1], v.Where) + "]"
+				// (only what it turned it into: the pair from>to multiplied the keys of one defect)
+				cause = "broken-by:" + snaps[lastOK+1].name + "[>" + kindAt(snaps[lastOK+1], v.Where) + "]"
 			case lastOK >= 0:
 				cause = "unknown" // holds at the end of the replica: the real chain differs
 			case j == 0:
